@@ -2,7 +2,7 @@
    prepare::isolating_run_sequences: run on the per-unit expansions of per-character class / level
    vectors with the level runs mapped to unit ranges, the stage returns the character-level
    sequences mapped to unit ranges (same sos / eos). *)
-From BidiVerif Require Import Base ConstsGen TablesGen ModelText ModelResolve ModelLine Spec Obs Judge
+From BidiVerif Require Import Base ConstsGen TablesGen ModelText RefDs ModelResolve ModelLine Spec Obs Judge
      Stmts Stmts2 Stmts3.
 From BidiVerif.Proofs Require Import LISequences.
 
@@ -19,7 +19,7 @@ Example li_sequences_example :
   let chars := view_of U16 text in
   let lens := map snd chars in
   let k := length chars in
-  let cls := map (ds_class hardcoded_ds) (map fst chars) in
+  let cls := map (ds_class ucd16_ds) (map fst chars) in
   let lv := [1; 1; 2; 2; 1; 1; 0] in
   let runs := [(0, 2); (2, 4); (4, 6); (6, 7)] in
   let seqs_iso := [{| irs_runs := [(2, 4)]; irs_sos := L; irs_eos := L |};
